@@ -10,6 +10,7 @@ import (
 	"io"
 	"mime"
 	"net/http"
+	"strings"
 
 	"github.com/creachadair/jrpc2"
 	"github.com/creachadair/jrpc2/server"
@@ -62,7 +63,7 @@ func (b Bridge) ServeHTTP(w http.ResponseWriter, req *http.Request) {
 		if mt != "application/json" {
 			http.Error(w, "content-type must be application/json", http.StatusUnsupportedMediaType)
 			return
-		} else if cs, ok := params["charset"]; ok && cs != "utf-8" && cs != "utf8" {
+		} else if cs, ok := params["charset"]; ok && !strings.EqualFold(cs, "utf-8") && !strings.EqualFold(cs, "utf8") {
 			http.Error(w, "invalid content-type charset", http.StatusUnsupportedMediaType)
 			return
 		}
